@@ -2533,19 +2533,19 @@ static Value eval_call(ASTNode *node, Environment *env) {
     /* Character classification */
     if (strcmp(name, "is_digit") == 0) {
         if (args[0].type != VAL_INT) return create_bool(false);
-        int c = (int)args[0].as.int_val;
+        long long c = args[0].as.int_val;   /* no narrowing: 4294967344 is not a digit */
         return create_bool(c >= '0' && c <= '9');
     }
     
     if (strcmp(name, "is_alpha") == 0) {
         if (args[0].type != VAL_INT) return create_bool(false);
-        int c = (int)args[0].as.int_val;
+        long long c = args[0].as.int_val;   /* no narrowing: 4294967344 is not a digit */
         return create_bool((c >= 'a' && c <= 'z') || (c >= 'A' && c <= 'Z'));
     }
     
     if (strcmp(name, "is_alnum") == 0) {
         if (args[0].type != VAL_INT) return create_bool(false);
-        int c = (int)args[0].as.int_val;
+        long long c = args[0].as.int_val;   /* no narrowing: 4294967344 is not a digit */
         return create_bool((c >= '0' && c <= '9') || 
                            (c >= 'a' && c <= 'z') || 
                            (c >= 'A' && c <= 'Z'));
@@ -2553,19 +2553,19 @@ static Value eval_call(ASTNode *node, Environment *env) {
     
     if (strcmp(name, "is_whitespace") == 0) {
         if (args[0].type != VAL_INT) return create_bool(false);
-        int c = (int)args[0].as.int_val;
+        long long c = args[0].as.int_val;   /* no narrowing: 4294967344 is not a digit */
         return create_bool(c == ' ' || c == '\t' || c == '\n' || c == '\r');
     }
     
     if (strcmp(name, "is_upper") == 0) {
         if (args[0].type != VAL_INT) return create_bool(false);
-        int c = (int)args[0].as.int_val;
+        long long c = args[0].as.int_val;   /* no narrowing: 4294967344 is not a digit */
         return create_bool(c >= 'A' && c <= 'Z');
     }
     
     if (strcmp(name, "is_lower") == 0) {
         if (args[0].type != VAL_INT) return create_bool(false);
-        int c = (int)args[0].as.int_val;
+        long long c = args[0].as.int_val;   /* no narrowing: 4294967344 is not a digit */
         return create_bool(c >= 'a' && c <= 'z');
     }
     
